@@ -10,6 +10,7 @@ offset returns `abs l` (C03). The step theorems are collected here as they are p
 import Klev.Proofs.Publish
 import Klev.Proofs.ReadInv
 import Klev.Proofs.Reach
+import Klev.Proofs.Witness
 namespace Klev.C01
 
 /-- **Fidelity.** From any state satisfying the invariant, after any finite sequence of
@@ -60,6 +61,38 @@ theorem consume_shows_content (l : Log) (hinv : Inv l) (off : Int) (mc : Nat) (h
   Klev.consume_ok l hinv off mc hmc
 
 end Klev.C01
+
+/-! ### Non-vacuity
+
+The hypotheses of the theorems above are jointly satisfiable: each theorem is instantiated at
+the witness log `Witness.wL` (`Klev/Proofs/Witness.lean`: four segments, a hole, a deleted
+tail, key and time index on, reached from an empty directory by running the API), and the
+concrete conclusions are evaluated. -/
+section NonVacuity
+open Klev Klev.Witness
+
+-- `fidelity` at the empty log is the statement about the witness itself …
+example : Inv wL ∧ abs wL = specRun (abs l0) l0 ops := Klev.C01.fidelity l0 l0_inv ops
+example := Klev.C01.fidelity_from_empty oo ops
+-- … and the witness is again a legitimate starting state
+example := Klev.C01.fidelity wL wL_inv [.publish [(60, [9], [9])], .delete [0, 8], .gc, .get 4]
+example := Klev.C01.step wL wL_inv (.delete [4])
+example := Klev.C01.publish_step wL wL_inv [(60, [9], [9]), (61, [], [])]
+example := Klev.C01.rollover_keeps_content wL wL_inv wL_rw
+example := Klev.C01.consume_keeps_content wL wL_inv 2 3
+example := Klev.C01.consume_shows_content wL wL_inv 2 3 (by decide)
+
+-- evaluated: the content of the witness, a Consume across the hole, a further history
+example : (abs wL).live.map (fun m => (m.off, m.time, m.key, m.val)) =
+    [(0, 10, [1], [1]), (1, 20, [2], [2]), (2, 20, [1], [3]), (4, 30, [6], []),
+     (5, 30, [4], [5]), (6, 40, [1], [6]), (8, 50, [2], [8])] ∧ (abs wL).next = 9 := by decide
+example : (wL.consume 2 3).2 = .ok (5, [⟨2, 20, [1], [3]⟩, ⟨4, 30, [6], []⟩]) := by decide
+example : (wL.consume 3 1).2 = .ok (5, [⟨4, 30, [6], []⟩]) := by decide
+example : (abs (runOps wL [.publish [(60, [9], [9])], .delete [0, 8], .gc, .get 4])).live.map (·.off) =
+    [1, 2, 4, 5, 6, 8, 9] := by decide
+example : (abs wL.rollover).live = (abs wL).live ∧ wL.rollover.segs.length = wL.segs.length := by decide
+
+end NonVacuity
 
 #print axioms Klev.C01.fidelity
 #print axioms Klev.C01.fidelity_from_empty
